@@ -60,6 +60,7 @@ pub fn run(ctx: &Ctx, rep: &mut Report) {
         }
         let hub_addr = b"axelar1hub".to_vec();
         let mut w = ItsWorld::new(&mut rng, b"stellar", &hub_addr, 4);
+        w.u.blanket_ok = true;
         w.trust(b"ethereum");
         w.trust(b"Avalanche-Fuji");
         w.trust(b"gone");
